@@ -982,7 +982,80 @@ unsafe impl Sync for GatePayload {}
 unsafe impl Send for GatePayload {}
 
 pub fn gate_total() -> usize {
-    GATES.len() * 4
+    GATES.len() * 4 + 4
+}
+
+/// `Atomic::with_mut` lasts for the whole closure, like an UnsafeCell access: a flag released from inside the closure does
+/// not order the end of the access before the thread that acquires the flag.
+fn withmut_probe(idx: usize, kind: usize) -> Rec {
+    use loom::sync::atomic::{AtomicUsize, Ordering::*};
+    let mut rec = Rec::new(idx);
+    let inside = kind < 2;
+    let reader = ["load(Relaxed)", "unsync_load()", "load(Relaxed)", "unsync_load()"][kind];
+    rec.prog = if inside { format!("a.with_mut(|v| {{ flag.store(1, Release); *v = 5 }})  ||  if flag.load(Acquire) == 1 {{ a.{} }}", reader) } else { format!("a.with_mut(|v| *v = 5); flag.store(1, Release)  ||  if flag.load(Acquire) == 1 {{ a.{} }}", reader) };
+    rec.hash = fnv(&rec.prog);
+    rec.extra = json!({"family": "arcgate"});
+    let reached = SArc::new(std::sync::atomic::AtomicUsize::new(0));
+    let iters = SArc::new(std::sync::atomic::AtomicUsize::new(0));
+    let (r2, i2) = (reached.clone(), iters.clone());
+    let res = std::panic::catch_unwind(std::panic::AssertUnwindSafe(|| {
+        loom::model::Builder::new().check(move || {
+            if i2.fetch_add(1, SeqCst) >= 50_000 {
+                panic!("{}", ITER_CAP_MSG);
+            }
+            let a = SArc::new(AtomicUsize::new(0));
+            let flag = SArc::new(AtomicUsize::new(0));
+            let (a1, f1) = (a.clone(), flag.clone());
+            let t1 = loom::thread::spawn(move || {
+                // exclusive access is the program's claim (it is wrong when the flag is published from inside the closure)
+                let m: &mut AtomicUsize = unsafe { &mut *(SArc::as_ptr(&a1) as *mut AtomicUsize) };
+                if inside {
+                    m.with_mut(|v| {
+                        f1.store(1, Release);
+                        *v = 5;
+                    });
+                } else {
+                    m.with_mut(|v| *v = 5);
+                    f1.store(1, Release);
+                }
+            });
+            let r3 = r2.clone();
+            let t2 = loom::thread::spawn(move || {
+                if flag.load(Acquire) == 1 {
+                    r3.fetch_add(1, SeqCst);
+                    if kind % 2 == 0 {
+                        a.load(Relaxed);
+                    } else {
+                        unsafe { a.unsync_load() };
+                    }
+                }
+            });
+            t1.join().unwrap();
+            t2.join().unwrap();
+        });
+    }));
+    rec.runs = 1;
+    rec.iters = iters.load(std::sync::atomic::Ordering::SeqCst) as u64;
+    rec.events = reached.load(std::sync::atomic::Ordering::SeqCst) as u64;
+    let panic = res.err().map(panic_msg);
+    match panic.as_ref().map(|m| classify(m)) {
+        Some(PanicKind::IterCap) => rec.status = "inconclusive:iteration-cap".into(),
+        Some(PanicKind::Causality) => {
+            if !inside {
+                rec.v("false_race", "", format!("the flag is released after with_mut has returned: the accesses are ordered, yet loom reports {}", panic.clone().unwrap_or_default().lines().next().unwrap_or("")));
+            }
+        }
+        Some(k) => rec.v("unexpected_panic", format!("{} @ {}", k.short(), last_panic_file()), panic.clone().unwrap_or_default()),
+        None => {
+            if rec.events == 0 {
+                rec.status = "inconclusive:gated-access-never-reached".into();
+            } else if inside {
+                rec.v("missed_race", "", format!("the reader's access was reached in {} of {} executions while the with_mut closure that released the flag was still running (its write comes after the release), yet loom::model returned normally", rec.events, rec.iters));
+            }
+        }
+    }
+    rec.nontrivial = rec.events > 0 || panic.is_some();
+    rec
 }
 
 fn gate_desc(idx: usize) -> (Gate, bool, bool) {
@@ -993,6 +1066,9 @@ pub fn gate_work(idx: usize) -> Rec {
     use loom::sync::atomic::{AtomicUsize, Ordering::Relaxed};
     use loom::sync::Arc;
     use std::sync::atomic::Ordering::SeqCst;
+    if idx >= GATES.len() * 4 {
+        return withmut_probe(idx, idx - GATES.len() * 4);
+    }
     let mut rec = Rec::new(idx);
     let (gate, raw_release, writer_second) = gate_desc(idx);
     rec.prog = format!("payload cell {} ; {} ; flag.store(1, Relaxed)  ||  if flag.load(Relaxed) == 1 {{ {:?} ; payload cell {} }}{}", if writer_second { "read" } else { "write" }, if raw_release { "decrement_strong_count(into_raw(handle))" } else { "drop(handle)" }, gate, if writer_second { "write" } else { "read" }, if gate == Gate::TryUnwrapSucceeds { "" } else { "  [main holds a third handle throughout]" });
